@@ -59,9 +59,14 @@ func modeOf(kind string) filemode.FileMode {
 		return filemode.Executable
 	case "l":
 		return filemode.Symlink
+	case "s":
+		return filemode.Submodule
 	}
 	return filemode.Regular
 }
+
+// the commit a gitlink entry points at (never present in the object store)
+var gitlinkHash = plumbing.NewHash("5151515151515151515151515151515151515151")
 
 func kindOfMode(m filemode.FileMode) string {
 	switch m {
@@ -119,6 +124,10 @@ func (e *env) storeTree(r *git.Repository, ents []fent, prefix string) plumbing.
 				order = append(order, d)
 			}
 			subs[d].ents = append(subs[d].ents, f)
+			continue
+		}
+		if f.kind == "s" {
+			entries = append(entries, object.TreeEntry{Name: rel, Mode: filemode.Submodule, Hash: gitlinkHash})
 			continue
 		}
 		entries = append(entries, object.TreeEntry{Name: rel, Mode: modeOf(f.kind), Hash: e.storeBlob(r, f.content)})
@@ -190,6 +199,12 @@ func (e *env) writeWT(f fent) {
 	if err := os.MkdirAll(filepath.Dir(p), 0o755); err != nil {
 		panic(err)
 	}
+	if f.kind == "d" || f.kind == "s" {
+		if err := os.MkdirAll(p, 0o755); err != nil {
+			panic(err)
+		}
+		return
+	}
 	e.tick++
 	sec := 978307200 + e.tick // 2001-01-01 + tick: never equal to an index entry's mtime, always before the index file's
 	if f.kind == "l" {
@@ -230,6 +245,7 @@ type snap struct {
 	Index [][]any `json:"index"`
 	WT    [][]any `json:"wt"`
 	Dirs  []string `json:"emptydirs,omitempty"`
+	AllDirs []string `json:"dirs,omitempty"`
 	// raw bytes of .git/HEAD, .git/packed-refs and every file below .git/refs
 	Raw map[string]string `json:"raw"`
 }
@@ -290,7 +306,11 @@ func (e *env) snapshot() (lib.Out, snap) {
 	for _, en := range ents {
 		var content []byte
 		kind := kindOfMode(en.Mode)
-		if b, err := r.BlobObject(en.Hash); err == nil {
+		if en.Mode == filemode.Submodule {
+			if en.Hash != gitlinkHash {
+				kind = "missing_s"
+			}
+		} else if b, err := r.BlobObject(en.Hash); err == nil {
 			rd, _ := b.Reader()
 			content, _ = io.ReadAll(rd)
 			rd.Close()
@@ -336,6 +356,7 @@ func (e *env) snapshot() (lib.Out, snap) {
 			t, _ := os.Readlink(p)
 			files = append(files, fent{rel, "l", []byte(t)})
 		case fi.IsDir():
+			s.AllDirs = append(s.AllDirs, rel)
 			if l, _ := os.ReadDir(p); len(l) == 0 {
 				s.Dirs = append(s.Dirs, rel)
 			}
@@ -449,6 +470,10 @@ func run(c lib.Case) (lib.Out, any) {
 	ie := entsOf(c.L("index"))
 	sort.Slice(ie, func(i, j int) bool { return ie[i].path < ie[j].path })
 	for _, f := range ie {
+		if f.kind == "s" {
+			idx.Entries = append(idx.Entries, &index.Entry{Name: f.path, Mode: filemode.Submodule, Hash: gitlinkHash})
+			continue
+		}
 		idx.Entries = append(idx.Entries, &index.Entry{Name: f.path, Mode: modeOf(f.kind), Hash: e.storeBlob(r, f.content)})
 	}
 	if err := r.Storer.SetIndex(idx); err != nil {
